@@ -373,7 +373,7 @@ func runC05(p *core.Prog, r *core.Report, tier string) {
 		if n >= 2 && core.IsErrorType(f.Signature.Results().At(n-1).Type()) {
 			nHelpers++
 		}
-		for _, nd := range core.NilNilDerefs(ds, f) {
+		for _, nd := range core.NilNilDerefs(ds, f, func(c *ssa.Call) []*ssa.Function { return p.CalleesAt(f, c) }) {
 			r.Violate("C05.h", core.FnKey(f)+"|nil-result-deref|"+ds.D(nd.Value).String(), p.Pos(nd.Use.Pos()), "dereference of a call result that "+nd.Why+", without a nil test: the proposal panics instead of carrying on", p.WitnessText(nd.Witness)...)
 			nDeref++
 		}
